@@ -177,7 +177,7 @@ def handle (line : String) : String :=
       | some es, some srcs =>
         let stream := send { preserve := o.preserve, reverse := flag rev, host := host, subsec := flag ssec,
                              sentinelFix := flag sfix } srcs
-        let shown := if stream.length ≤ 6000 then Hex.encode stream else "~"
+        let shown := if stream.length ≤ 30000 then Hex.encode stream else "~"
         s!"nent={(expandAll srcs).length} c2slen={stream.length} c2scrc={(crc32 stream).toNat} c2s={shown} " ++
           showResult es (run o (fsOf es) stream)
       | _, _ => "bad-op"
